@@ -379,7 +379,8 @@ impl Ctx {
             "wall_s": (self.start.elapsed().as_secs_f64() * 1000.0).round() / 1000.0,
             "violations": nviol,
         });
-        let evpath = format!("{}/evidence/{}.json", root, self.prop);
+        // a replay re-runs a check at a recorded seed: it must not replace the evidence of the regular run
+        let evpath = if self.replay_filter.is_some() { format!("{}/replays/{}-replay-evidence.json", root, self.prop) } else { format!("{}/evidence/{}.json", root, self.prop) };
         if let Err(e) = std::fs::write(&evpath, serde_json::to_string_pretty(&ev).unwrap() + "\n") {
             eprintln!("kmon: cannot write {}: {}", evpath, e);
         }
